@@ -168,6 +168,36 @@ pub fn check_history(h: &Hist) -> Result<(bool, Vec<&'static str>), Failure> {
         if rt != e.attempt_success {
             return Err(failure("response-time-metric", format!("UpdateCheckResponseTime flags {rt:?}, attempts were {:?}", e.attempt_success), h, around));
         }
+        // ... and each response time is that attempt's own duration (request issued -> answer delivered), not a
+        // running total: exact, because the simulated clock only moves at environment interactions
+        {
+            let mut want: Vec<std::time::Duration> = vec![];
+            let mut open: Option<(usize, i128)> = None;
+            for (k, o) in h.log[seg.start..seg.end].iter().enumerate() {
+                let i = seg.start + k;
+                match o {
+                    Op::Http { n, view: Some(v), .. } if v.kind == ReqKind::UpdateCheck => open = Some((*n, h.stamps[i.saturating_sub(1)].1)),
+                    Op::HttpDone { n, .. } => {
+                        if let Some((m, start)) = open {
+                            if m == *n {
+                                want.push(std::time::Duration::from_nanos((h.stamps[i].1 - start).max(0) as u64));
+                                open = None;
+                            }
+                        }
+                    }
+                    _ => {}
+                }
+            }
+            let got: Vec<std::time::Duration> = h.log[seg.start..seg.end].iter().filter_map(|o| if let Op::Metric(MetricView::ResponseTime { dur, .. }) = o { Some(*dur) } else { None }).collect();
+            if got.len() == want.len() && got != want {
+                return Err(failure(
+                    "response-time-value",
+                    format!("UpdateCheckResponseTime values {got:?}; each attempt took {want:?} (request issued -> answer delivered)"),
+                    h,
+                    around,
+                ));
+            }
+        }
         let rpc: Vec<(u64, bool)> = h.log[seg.start..seg.end].iter().filter_map(|o| if let Op::Metric(MetricView::RequestsPerCheck { count, successful }) = o { Some((*count, *successful)) } else { None }).collect();
         if rpc != vec![(e.attempts as u64, e.got_body)] {
             return Err(failure("requests-per-check-metric", format!("RequestsPerCheck {rpc:?}, expected [({}, {})]", e.attempts, e.got_body), h, around));
